@@ -35,7 +35,7 @@ func main() {
 		r := common.NewRng(seed)
 		for i := 0; i < common.Atoi(args["--n"], 3); i++ {
 			p := genProgram(r.Fork())
-			fmt.Printf("---- program %d (paths %v)\n%s\n", i, p.Paths, p.Src)
+			fmt.Printf("---- program %d (paths %v)\n%s\nunfinalized after compile: %v\n", i, p.Paths, p.Src, unfinalizedPaths(newEnv(p.Src).V))
 		}
 	default:
 		fmt.Fprintln(os.Stderr, "unknown mode", os.Args[1])
